@@ -52,4 +52,6 @@ def run(P, R, L):
     from . import blind as _blind
     R.clause("ENUM-1", "the hand-written tag decoders (Operation, BlockType, compression type, manifest field tags) invert the enums' discriminants")
     R.once(_blind.enum1_tag_decoders, P, R, L)
+    R.clause("GRD-37", "a block handle (footer / index entry) is compared with the file length before a buffer of its size is allocated: a damaged handle is an error, not an allocator abort")
+    R.once(_blind.grd37_block_handle_within_the_file, P, R, L)
     R.not_decided += ["prefix compression, separators, seek positions, iteration order (computed bytes)"]
